@@ -33,9 +33,11 @@ Print Assumptions C03_cfg_good.
 
 (* ---------------- relative to any checker, no hypothesis ---------------- *)
 (* if the checker rejects a supplied value (whatever TypeVar bindings it is given), the call raises and the
-   journal of the body is empty *)
+   journal of the body is empty.  `star_offset_ok` (a boolean on fn and call) says that the receiver and the positional
+   values the first checking pass skips in front of *args are not more than CPython binds to named parameters - the
+   arithmetic of FunctionCall._num_of_args_bound_to_named_params; it holds for every call the harness can make. *)
 Theorem C03_args_guard_relative : forall pc check consumes f c bd b a v,
-  pc_good pc = true -> sig_ok f = true -> twin_binding f c = Ok b ->
+  pc_good pc = true -> sig_ok f = true -> star_offset_ok f c = true -> twin_binding f c = Ok b ->
   In (Some a, v) (supplied_of f c b) -> rejected check a v ->
   snd (run pc check consumes f c bd) = [] /\ exists e, fst (run pc check consumes f c bd) = Raise e.
 Proof. intros. eapply args_guard; eassumption. Qed.
@@ -51,7 +53,7 @@ Print Assumptions C03_result_guard_relative.
 (* ---------------- generator functions ---------------- *)
 (* calling the generator function: a rejected supplied value => no generator object, nothing ran *)
 Theorem C03_generator_call_guard_relative : forall pc check consumes f c b a v,
-  pc_good pc = true -> sig_ok f = true -> twin_binding f c = Ok b ->
+  pc_good pc = true -> sig_ok f = true -> star_offset_ok f c = true -> twin_binding f c = Ok b ->
   In (Some a, v) (supplied_of f c b) -> rejected check a v ->
   snd (run_gen pc check consumes f c) = [] /\ exists e, fst (run_gen pc check consumes f c) = Raise e.
 Proof. intros. eapply args_guard_gen; eassumption. Qed.
@@ -107,11 +109,11 @@ Section Relative.
   (* C03, first sentence: for every callable whose signature CPython can build (sig_ok), every call, every
      body: a non-conforming supplied value => the call raises, the body has not run *)
   Theorem C03_args_guard : forall pc consumes f c bd,
-    pc_good pc = true -> sig_ok f = true ->
+    pc_good pc = true -> sig_ok f = true -> star_offset_ok f c = true ->
     c03_supplied_bad ctx f c = true ->
     snd (run pc check consumes f c bd) = [] /\ exists e, fst (run pc check consumes f c bd) = Raise e.
   Proof.
-    intros pc consumes f c bd G Hsig H. unfold c03_supplied_bad in H.
+    intros pc consumes f c bd G Hsig Hoff H. unfold c03_supplied_bad in H.
     destruct (twin_binding f c) as [b|] eqn:Eb; [|discriminate].
     apply existsb_exists in H as [[oa v] [Hin Hbad]]. simpl in Hbad.
     destruct (bad_rejected _ _ Hbad) as [a [-> [_ Hrej]]].
@@ -123,7 +125,7 @@ Section Relative.
      three escapes is taken: `self` passed by keyword (K10), '@staticmethod' in the text of a module-level
      function (K2); (a var-positional parameter not spelled *args makes the discipline test fail: K2) *)
   Theorem C03_args_guard_exact_partial : forall pc consumes f c bd,
-    pc_good pc = true -> sig_ok f = true ->
+    pc_good pc = true -> sig_ok f = true -> star_offset_ok f c = true ->
     c03_supplied_bad ctx f c = true ->
     assert_uses_kwargs pc f c = Ok tt ->
     (is_instance_method f = true -> wargs c <> []) ->
@@ -131,7 +133,7 @@ Section Relative.
     forallb (fun p => match p_ann p with Some a => supported ctx a | None => true end) (f_params f) = true ->
     run pc check consumes f c bd = (Raise PTypeCheckC, []).
   Proof.
-    intros pc consumes f c bd G Hsig H Hauk Hinst Hprobe Hsup. unfold c03_supplied_bad in H.
+    intros pc consumes f c bd G Hsig Hoff H Hauk Hinst Hprobe Hsup. unfold c03_supplied_bad in H.
     destruct (twin_binding f c) as [b|] eqn:Eb; [|discriminate].
     apply existsb_exists in H as [[oa v] [Hin Hbad]]. simpl in Hbad.
     destruct (bad_rejected _ _ Hbad) as [a [-> [_ Hrej]]].
@@ -199,24 +201,24 @@ Print Assumptions C03_result_guard_exact_partial.
 (* the hypotheses discharged by the C01 / C02 theorems (Proofs/CheckerTop.v via Proofs/PedanticChecker.v): `run1` is the
    call protocol over the REGENERATED pedantic_cfg with the checker model over the REGENERATED checker tables *)
 Theorem C03_args_guard_closed : forall ctx f c bd,
-  sig_ok f = true -> c03_supplied_bad ctx f c = true ->
+  sig_ok f = true -> star_offset_ok f c = true -> c03_supplied_bad ctx f c = true ->
   snd (run1 ctx f c bd) = [] /\ exists e, fst (run1 ctx f c bd) = Raise e.
 Proof.
-  intros ctx f c bd Hs H. unfold run1.
-  exact (C03_args_guard gcfg ctx (checker1_rejects ctx) _ _ f c bd C03_cfg_good Hs H).
+  intros ctx f c bd Hs Ho H. unfold run1.
+  exact (C03_args_guard gcfg ctx (checker1_rejects ctx) _ _ f c bd C03_cfg_good Hs Ho H).
 Qed.
 Print Assumptions C03_args_guard_closed.
 
 Theorem C03_args_guard_exact_closed_partial : forall ctx f c bd,
-  sig_ok f = true -> c03_supplied_bad ctx f c = true ->
+  sig_ok f = true -> star_offset_ok f c = true -> c03_supplied_bad ctx f c = true ->
   assert_uses_kwargs Gen.Pedantic.pedantic_cfg f c = Ok tt ->
   (is_instance_method f = true -> wargs c <> []) ->
   (forall inst, instance_of f c = Ok inst -> clazz_probe f c inst = Ok tt) ->
   forallb (fun p => match p_ann p with Some a => supported ctx a | None => true end) (f_params f) = true ->
   run1 ctx f c bd = (Raise PTypeCheckC, []).
 Proof.
-  intros ctx f c bd Hs H Ha Hi Hp Hsup. unfold run1.
-  exact (C03_args_guard_exact_partial gcfg ctx (checker1_rejects ctx) (checker1_raises_ptc_only ctx) _ _ f c bd C03_cfg_good Hs H Ha Hi Hp Hsup).
+  intros ctx f c bd Hs Ho H Ha Hi Hp Hsup. unfold run1.
+  exact (C03_args_guard_exact_partial gcfg ctx (checker1_rejects ctx) (checker1_raises_ptc_only ctx) _ _ f c bd C03_cfg_good Hs Ho H Ha Hi Hp Hsup).
 Qed.
 Print Assumptions C03_args_guard_exact_closed_partial.
 
@@ -273,7 +275,7 @@ Print Assumptions C03_pedantic_text_refuted.
 
 (* ---------------- the hypotheses are satisfiable / the model really rejects ---------------- *)
 Example C03_guards_satisfiable :
-  sig_ok f_plain = true /\ c03_args_bad ctx0 f_plain (kwcall [] [(a_, vx)]) = true
+  sig_ok f_plain = true /\ star_offset_ok f_plain (kwcall [] [(a_, vx)]) = true /\ c03_args_bad ctx0 f_plain (kwcall [] [(a_, vx)]) = true
   /\ assert_uses_kwargs Gen.Pedantic.pedantic_cfg f_plain (kwcall [] [(a_, vx)]) = Ok tt
   /\ run1 ctx0 f_plain (kwcall [] [(a_, vx)]) (returns (VInt 1%Z)) = (Raise PTypeCheckC, []).
 Proof. repeat split; reflexivity. Qed.
@@ -282,6 +284,19 @@ Example C03_default_checked :
   c03_args_bad ctx0 (func "f" [par a_ PosOrKw AInt (Some vx)] plain_text) (kwcall [] []) = true
   /\ run1 ctx0 (func "f" [par a_ PosOrKw AInt (Some vx)] plain_text) (kwcall [] []) (returns (VInt 1%Z)) = (Raise PTypeCheckC, []).
 Proof. split; reflexivity. Qed.
+
+(* since 9c0ddc8 only the values collected by *args are checked against its annotation: a bad element behind a leading
+   positional value and behind the receiver of a method is still caught *)
+Example C03_star_behind_leading_positional_checked :
+  let f := func "f" [par a_ PosOrKw AStrC None; par args_ VarPos AInt None] (tflags true false false true 1) in
+  let m := method "m" self_name [par args_ VarPos AInt None] (tflags true false false false 0) in
+  star_offset_ok f (poscall [] [vx; VInt 1%Z; vx] []) = true
+  /\ c03_args_bad ctx0 f (poscall [] [vx; VInt 1%Z; vx] []) = true
+  /\ run1 ctx0 f (poscall [] [vx; VInt 1%Z; vx] []) (returns (VInt 1%Z)) = (Raise PTypeCheckC, [])
+  /\ star_offset_ok m (poscall [k_inst] [VInt 1%Z; vx] []) = true
+  /\ run1 ctx0 m (poscall [k_inst] [VInt 1%Z; vx] []) (returns (VInt 1%Z)) = (Raise PTypeCheckC, [])
+  /\ run1 ctx0 m (poscall [k_inst] [VInt 1%Z; VInt 2%Z] []) (returns (VInt 1%Z)) = twin m (poscall [k_inst] [VInt 1%Z; VInt 2%Z] []) (returns (VInt 1%Z)).
+Proof. repeat split; reflexivity. Qed.
 
 Example C03_star_and_kwargs_checked :
   let f := func "f" [par args_ VarPos AInt None; par 8 VarKw AStrC None] (tflags true false false true 1) in
